@@ -520,6 +520,8 @@ def custom_run(tier, seed, replay):
 def _compare(a, b, label, stats, worst):
     fn = a["fn"]
     key = {"fn": fn.split("[")[0], "against": label}
+    if key["fn"] in ("mpr", "gjk", "epa"):
+        key["cls"] = str(a.get("cls", "?")).split("+")[0]
     if a["kind"] == "gen-exc" or b["kind"] == "gen-exc":
         if a["kind"] != b["kind"] or a.get("exc") != b.get("exc"):
             return {"key": dict(key, kind="generator-differs"), "err": None, "msg": "%s: input construction %r vs %r" % (fn, a, b)}
